@@ -3,16 +3,16 @@ import GmQuic.Lemmas.Wake
 /-! Per-instance invariants for the C16 instances of Model/Wake2.lean. -/
 namespace GmQuic.Wake
 
-/-! ### Parameters (fixed code), any number of tasks -/
+/-! ### Parameters, any number of tasks -/
 namespace Params
 
 def Inv (s : State) (l : List (Sleeper Op)) : Prop :=
   ∀ x ∈ l, x.op = .poll x.t x.w ∧ x.w ∈ s.wakers ∧ s.closed = false ∧ s.ready = false
 
-theorem pres (s : State) (l : List (Sleeper Op)) (op : Op) (_ : AnyOp (proto true) op) (h : Inv s l) :
-    Inv (step true s op).1 (nextSlp (proto true) l op (step true s op).2) := by
+theorem pres (s : State) (l : List (Sleeper Op)) (op : Op) (_ : AnyOp proto op) (h : Inv s l) :
+    Inv (step s op).1 (nextSlp proto l op (step s op).2) := by
   intro x hx
-  obtain ⟨hw, hx⟩ := mem_nextSlp (P := proto true) hx
+  obtain ⟨hw, hx⟩ := mem_nextSlp (P := proto) hx
   rcases hx with ⟨hxl, hp, hd⟩ | ⟨t, w, hp, hr, rfl⟩
   · obtain ⟨h1, h2, h3, h4⟩ := h x hxl
     refine ⟨h1, ?_⟩
@@ -37,16 +37,16 @@ theorem pres (s : State) (l : List (Sleeper Op)) (op : Op) (_ : AnyOp (proto tru
     | _ => simp [proto] at hp
 
 theorem safe (s : State) (l : List (Sleeper Op)) (x : Sleeper Op) (h : Inv s l) (hx : x ∈ l) :
-    (step true s x.op).2.res = .pending := by
+    (step s x.op).2.res = .pending := by
   obtain ⟨h1, _, h3, h4⟩ := h x hx
   rw [h1]; simp [step, h3, h4]
 
 theorem closeWakes (s : State) (l : List (Sleeper Op)) (x : Sleeper Op) (h : Inv s l) (hx : x ∈ l) :
-    x.w ∈ (step true s .connError).2.wakes := by
+    x.w ∈ (step s .connError).2.wakes := by
   obtain ⟨_, h2, h3, _⟩ := h x hx
   simp [step, h3, h2]
 
-def sound : CloseSound (proto true) (AnyOp (proto true)) where
+def sound : CloseSound proto (AnyOp proto) where
   Inv := Inv
   init := by intro x hx; cases hx
   pres := pres
